@@ -75,7 +75,7 @@ Theorem GenTie_checker : forall b v,
   res_kind (VoteMagnitudeChecker_check (fst b) (snd b) v) = Some (check_model b v).
 Proof.
   intros [[lo|] [hi|]] v; unfold check_model, VoteMagnitudeChecker_check, VoteMagnitudeChecker_is_valid, in_bounds, active,
-    py_ge, py_le, py_cmp; cbn [fst snd py_is_none]; destruct (num_of v) as [x|]; try reflexivity;
+    py_ge, py_le, py_gt, py_lt, py_cmp; cbn [fst snd py_is_none negb]; destruct (num_of v) as [x|]; try reflexivity;
     repeat match goal with |- context [Qle_bool ?p ?q] => destruct (Qle_bool p q) end; reflexivity.
 Qed.
 
